@@ -54,15 +54,19 @@ def install_spy(rig_log, owner_of):
     from repid.middlewares.wrapper import IsInsideMiddleware, _middleware_wrapper
 
     truth = []
+    running = set()  # opids whose call has not returned yet
     orig = _middleware_wrapper.__call__
 
     async def spy(self, *args, **kwargs):
-        # nesting is tracked by the spy itself (own context variable), independently of the flag the code under test uses
-        nested = CUR_OP.get() is not None or self._repid_signal_emitter is None
-        ent = {"name": self.name, "nested": nested, "args": args, "kwargs": kwargs, "owner": owner_of(self, args, kwargs), "enter": rig_log.add(k="truth_enter", op=self.name), "wrapper": self,
+        # nesting is tracked by the spy itself (own context variable), independently of the flag the code under test uses.
+        # Nested = inside the dynamic extent of another wrapped call: a background task that was spawned during an
+        # operation and outlives it inherits the variable, but what it does after that operation returned is top-level.
+        nested = (CUR_OP.get() is not None and CUR_OP.get() in running) or self._repid_signal_emitter is None
+        ent = {"task": asyncio.current_task(), "no_emitter": self._repid_signal_emitter is None, "name": self.name, "nested": nested, "args": args, "kwargs": kwargs, "owner": owner_of(self, args, kwargs), "enter": rig_log.add(k="truth_enter", op=self.name), "wrapper": self,
                "opid": len(truth), "parent": CUR_OP.get()}
         truth.append(ent)
         tok = CUR_OP.set(ent["opid"])
+        running.add(ent["opid"])
         try:
             r = await orig(self, *args, **kwargs)
         except BaseException as exc:  # noqa: BLE001
@@ -70,7 +74,13 @@ def install_spy(rig_log, owner_of):
             ent["exit"] = rig_log.add(k="truth_exit", op=self.name)
             raise
         finally:
+            running.discard(ent["opid"])
             CUR_OP.reset(tok)
+            # settle the children's nesting now that this operation is over: a call made from a task that is still alive
+            # (a background task spawned during the operation) ran beside it, not inside it
+            for ch in truth[ent["opid"] + 1:]:
+                if ch["parent"] == ent["opid"]:
+                    ch["nested"] = ch["no_emitter"] or ch["task"] is ent["task"] or ch["task"].done()
         ent["result"] = r
         ent["exit"] = rig_log.add(k="truth_exit", op=self.name)
         return r
@@ -229,6 +239,15 @@ async def lifecycle(loop, case, subset, record):
                     if got3 is not None:
                         await op("nack", mb.nack(got3[0]) if style == "positional" else mb.nack(key=got3[0]))
             await cons.finish()
+            # a message whose time-to-live ran out before a consumer sees it: a broker that dead-letters it through its own
+            # wrapped nack (from its background polling task) owes that operation's signals like any other top-level call
+            k3 = key_of(c, f"{lab}-x", "t", "manual" + lab)
+            await op("enqueue-expiring", mb.enqueue(k3, "raw", P(ttl=timedelta(seconds=1))))
+            await asyncio.sleep(1.6)
+            cons2 = mb.get_consumer("manual" + lab, None, None, MessageCategory.NORMAL)
+            await cons2.start()
+            await op("consume-expired", asyncio.wait_for(cons2.consume(), 2.5 if kind == "redis" else 0.6))
+            await cons2.finish()
         # workers
         want_final = {f"{lab}-{x}" for lab in conns for x in "abc"}
 
